@@ -171,7 +171,8 @@ pub mod rt {
     /// wants `lock` in `mode`; enabled iff the acquisition would succeed now
     Lock { lock: u64, mode: Mode, site: Site },
     /// inside Condvar::wait; `mutex` is the (logically released) mutex to re-acquire on wake-up
-    Cv { cv: u64, mutex: u64, site: Site },
+    /// `until`: virtual deadline of a wait_timeout (None = plain wait)
+    Cv { cv: u64, mutex: u64, site: Site, until: Option<u64> },
     Sleeping(u64),
     Join(u32),
     Finished,
@@ -183,6 +184,7 @@ pub mod rt {
     parker: Arc<Parker>,
     prio: u64,
     spurious_left: u32,
+    timed_out: bool,
     os: Option<::std::thread::JoinHandle<()>>,
   }
 
@@ -424,7 +426,7 @@ pub mod rt {
           }
           s
         }
-        TState::Cv { cv, mutex, site } => format!("WaitingCondvar(cv {} mutex {}) at {}", self.lname(cv), self.lname(mutex), site),
+        TState::Cv { cv, mutex, site, .. } => format!("WaitingCondvar(cv {} mutex {}) at {}", self.lname(cv), self.lname(mutex), site),
         TState::Sleeping(u) => format!("Sleeping(until {}ns)", u),
         TState::Join(x) => format!("BlockedOnJoin(t{})", x),
         TState::Finished => "Finished".into(),
@@ -515,7 +517,15 @@ pub mod rt {
         if en.is_empty() {
           st.scratch = en;
           // Nobody can run: the only thing that can happen is the passage of (virtual) time.
-          let tmin = st.threads.iter().filter_map(|t| if let TState::Sleeping(u) = t.state { Some(u) } else { None }).min();
+          let tmin = st
+            .threads
+            .iter()
+            .filter_map(|t| match t.state {
+              TState::Sleeping(u) => Some(u),
+              TState::Cv { until: Some(u), .. } => Some(u),
+              _ => None,
+            })
+            .min();
           if let Some(tmin) = tmin {
             if tmin > self.cfg.max_virtual_time {
               st.time_limit_hit = true;
@@ -527,6 +537,14 @@ pub mod rt {
               if matches!(st.threads[i].state, TState::Sleeping(u) if u == tmin) {
                 st.threads[i].state = TState::Runnable;
                 self.tr(&mut st, i as u32, "wake", None, None);
+              }
+              if let TState::Cv { mutex, site, until: Some(u), .. } = st.threads[i].state {
+                if u == tmin {
+                  // the timed wait is over: leave the condvar and contend for the mutex
+                  st.threads[i].state = TState::Lock { lock: mutex, mode: Mode::Mutex, site };
+                  st.threads[i].timed_out = true;
+                  self.tr(&mut st, i as u32, "wait-timeout", None, None);
+                }
               }
             }
             continue;
@@ -673,9 +691,27 @@ pub mod rt {
       if let Some(l) = st.locks.get_mut(&mutex) {
         l.writer = None;
       }
-      st.threads[me as usize].state = TState::Cv { cv, mutex, site };
+      st.threads[me as usize].state = TState::Cv { cv, mutex, site, until: None };
       self.tr(&mut st, me, "cv-wait", Some(cv), Some(site));
       self.schedule(st, me);
+    }
+
+    /// Condvar::wait_timeout: as cv_wait, but the waiter also leaves when virtual time reaches now + nanos;
+    /// returns whether it left because of the timeout.
+    pub(super) fn cv_wait_timeout(&self, me: u32, cv: u64, mutex: u64, nanos: u64, site: Site) -> bool {
+      {
+        let mut st = self.lock();
+        if let Some(l) = st.locks.get_mut(&mutex) {
+          l.writer = None;
+        }
+        let until = st.now.saturating_add(nanos);
+        st.threads[me as usize].timed_out = false;
+        st.threads[me as usize].state = TState::Cv { cv, mutex, site, until: Some(until) };
+        self.tr(&mut st, me, "cv-wait-timeout", Some(cv), Some(site));
+        self.schedule(st, me);
+      }
+      let st = self.lock();
+      st.threads[me as usize].timed_out
     }
 
     pub(super) fn cv_notify(&self, me: u32, cv: u64, all: bool, site: Site) {
@@ -773,7 +809,7 @@ pub mod rt {
         .expect("VERIF: cannot spawn OS thread");
       let thread = os.thread().clone();
       let name = name.map(|s| s.to_string()).unwrap_or_else(|| format!("t{}", tid));
-      st.threads.push(Th { name, state: TState::Runnable, parker, prio, spurious_left: SPURIOUS_PER_THREAD, os: Some(os) });
+      st.threads.push(Th { name, state: TState::Runnable, parker, prio, spurious_left: SPURIOUS_PER_THREAD, timed_out: false, os: Some(os) });
       (tid, slot, thread)
     }
 
@@ -1148,6 +1184,11 @@ pub mod sync {
   }
 
   // ------------------------------------------------------------------------------------- Condvar
+  #[derive(Debug, PartialEq, Eq, Copy, Clone)]
+  pub struct WaitTimeoutResult(bool);
+  impl WaitTimeoutResult {
+    pub fn timed_out(&self) -> bool { self.0 }
+  }
   pub struct Condvar {
     id: u64,
     site: Site,
@@ -1182,6 +1223,50 @@ pub mod sync {
         guard = self.wait_at(guard, site)?;
       }
       Ok(guard)
+    }
+    /// std's `WaitTimeoutResult` cannot be constructed outside std: the facade has its own (same method).
+    #[track_caller]
+    pub fn wait_timeout<'a, T>(&self, guard: MutexGuard<'a, T>, dur: ::std::time::Duration) -> ss::LockResult<(MutexGuard<'a, T>, WaitTimeoutResult)> {
+      let site = Location::caller();
+      let MutexGuard { inner, rel, lock } = guard;
+      match rel.ctl.clone() {
+        None => match self.inner.wait_timeout(inner, dur) {
+          Ok((inner, r)) => Ok((MutexGuard { inner, rel, lock }, WaitTimeoutResult(r.timed_out()))),
+          Err(p) => {
+            let (inner, r) = p.into_inner();
+            Err(ss::PoisonError::new((MutexGuard { inner, rel, lock }, WaitTimeoutResult(r.timed_out()))))
+          }
+        },
+        Some((rt, me)) => {
+          drop(inner);
+          let timed_out = rt.cv_wait_timeout(me, self.id, lock.id, dur.as_nanos() as u64, site);
+          match wrap_try(lock.inner.try_lock(), rel, site, |inner, rel| MutexGuard { inner, rel, lock }) {
+            Ok(g) => Ok((g, WaitTimeoutResult(timed_out))),
+            Err(p) => Err(ss::PoisonError::new((p.into_inner(), WaitTimeoutResult(timed_out)))),
+          }
+        }
+      }
+    }
+    #[track_caller]
+    pub fn wait_timeout_while<'a, T, F>(&self, mut guard: MutexGuard<'a, T>, dur: ::std::time::Duration, mut condition: F) -> ss::LockResult<(MutexGuard<'a, T>, WaitTimeoutResult)>
+    where
+      F: FnMut(&mut T) -> bool,
+    {
+      // the deadline is taken on the controlled clock when a run is active, on the real one otherwise
+      let start_v = rt::now();
+      let start_r = ::std::time::Instant::now();
+      let controlled = rt::ctx().is_some();
+      loop {
+        if !condition(&mut *guard) {
+          return Ok((guard, WaitTimeoutResult(false)));
+        }
+        let elapsed = if controlled { ::std::time::Duration::from_nanos(rt::now().saturating_sub(start_v)) } else { start_r.elapsed() };
+        if elapsed >= dur {
+          return Ok((guard, WaitTimeoutResult(true)));
+        }
+        let (g, _) = self.wait_timeout(guard, dur - elapsed)?;
+        guard = g;
+      }
     }
     #[track_caller]
     pub fn notify_one(&self) {
